@@ -226,3 +226,9 @@ def reference_intervals(zone, y0=None, y1=None):
         ivs.append((start, t[0], cur[1], cur[2], cur[3]))
         start, cur = t[0], t
     return ivs
+
+
+def tail_window_intervals(zone, y0, y1):
+    """intervals between consecutive rule-generated transitions of years y0-1 .. y1+1 (far beyond the stored periods)"""
+    trans = tail_transitions(zone["tail"], y0 - 1, y1 + 1)
+    return [(a[0], b[0], a[1], a[2], a[3]) for a, b in zip(trans, trans[1:])]
